@@ -13,17 +13,22 @@ CONSTANT Emit
 (* ---------------- cells ---------------- *)
 (* pm = how the price is unavailable: the TWA record is flagged inactive, or there is no record at all *)
 PriceModes == {"na", "inactive", "missing"}
-OwnCells  == {[m |-> "own", msg |-> r.id, holder |-> h, signer |-> s] : r \in OwnerRows, h \in Holders, s \in Signers}
+OwnCellsAll == {[m |-> "own", msg |-> r.id, holder |-> h, signer |-> s, amt |-> a, scope |-> sc] :
+                  r \in OwnerRows, h \in Holders, s \in Signers, a \in {"na", "zero", "small", "whole", "over"}, sc \in {"home", "alt", "decoy"}}
+OwnCells  == {c \in OwnCellsAll : c.amt \in AmountsOf(Row(c.msg)) /\ c.scope \in ScopesOf(Row(c.msg))}
 (* des = the contract the statement designates for the variant (tells the harness which cell is the non-vacuity reference) *)
 PrivCells == {[m |-> "priv", v |-> x.v, chain |-> c, sender |-> s, des |-> Designated(x.cls)] : x \in Variants, c \in Chains, s \in Senders}
 KillCells == {[m |-> "kill", sender |-> s] : s \in KillSenders}
 
 ExecRows    == {r \in Rows : r.exec}
 ProdsOf(r)  == IF r.pk = "vault" /\ r.px = IO THEN {"oracle", "fixed"} ELSE {"na"}
-RolesOf(r)  == IF r.pk \in {"vault", "borrow"} THEN IO ELSE IF r.pk \in {"lend", "stable"} THEN I ELSE {}
+RolesOf(r)  == IF r.pk \in {"vault", "borrow", "extliq", "bid"} THEN IO ELSE IF r.pk \in {"lend", "stable"} THEN I ELSE {}
+(* rows outside the vault / locker / lend handlers are only constrained by the price clause: no breaker / shutdown axis *)
+PriceOnly(r) == r.pk \in {"extliq", "bid"}
 CtlCells  == {[m |-> "ctl", h |-> r.id, app |-> r.app, prod |-> p, breaker |-> b, esm |-> e, off |-> o, pm |-> pm] :
                  r \in ExecRows, p \in Products, b \in BOOLEAN, e \in EsmStates, o \in SUBSET IO, pm \in PriceModes}
-CtlCellsOK == {c \in CtlCells : c.prod \in ProdsOf(Row(c.h)) /\ c.off \subseteq RolesOf(Row(c.h)) /\ (c.pm = "na" <=> c.off = {})}
+CtlCellsOK == {c \in CtlCells : c.prod \in ProdsOf(Row(c.h)) /\ c.off \subseteq RolesOf(Row(c.h)) /\ (c.pm = "na" <=> c.off = {})
+                                 /\ (PriceOnly(Row(c.h)) => ~c.breaker /\ c.esm = "off")}
 HookCells == {[m |-> "hook", hook |-> h, app |-> HookApp(h), breaker |-> b, esm |-> e, off |-> o, pm |-> pm] :
                  h \in Hooks, b \in BOOLEAN, e \in EsmStates, o \in SUBSET I, pm \in PriceModes}
 HookCellsOK == {c \in HookCells : (c.pm = "na" <=> c.off = {}) /\ (c.off # {} => HookNeedsPrice(c.hook))}
@@ -43,7 +48,7 @@ Out(c) == IF Emit THEN PrintT(<<"T", ToJson(c)>>) ELSE TRUE
 
 DoOwn(c) == \E env \in BOOLEAN :
             LET o == OwnerStep(Pos0(c.holder), Row(c.msg), c.signer, env) IN
-            /\ (OwnerPredicted(Row(c.msg), c.holder, c.signer) => env)        \* env only matters for the unpredicted cells
+            /\ (OwnerPredicted(Row(c.msg), c.holder, c.signer, c.amt, c.scope) => env)        \* env only matters for the unpredicted cells
             /\ cell' = c /\ res' = [ok |-> o.ok] /\ st' = [st EXCEPT !.pos = o.pos]
 DoPriv(c) == LET ok == ImplPrivOk(c.v, c.chain, c.sender) IN
             /\ cell' = c /\ res' = [ok |-> ok] /\ st' = IF ok THEN [st EXCEPT !.ver = st.ver + 1] ELSE st
@@ -82,8 +87,11 @@ DesignC12 ==
   /\ cell.m = "own"  => OwnerOnly(Row(cell.msg), cell.holder, cell.signer, res.ok) /\ (cell.signer # cell.holder => st.pos = Pos0(cell.holder))
   /\ cell.m = "priv" => PrivilegedOnlyDesignated(cell.chain, cell.sender, res.ok) /\ PrivilegedRole(cell.v, cell.chain, cell.sender, res.ok)
   /\ cell.m = "kill" => KillOnlyAdmin(cell.sender, res.ok)
+(* second named deviation: the V2 market bid reads the debt asset's TWA without checking that the record exists and is active *)
+BidReadsStalePrice(c) == c.m = "ctl" /\ Row(c.h).pk = "bid" /\ "out" \in c.off
+BidDeviation == BidReadsStalePrice(cell) => MustReject(Row(cell.h), cell.prod, CtlOf(cell)) /\ res.ok
 DesignC14 ==
-  /\ cell.m = "ctl"  => (MustReject(Row(cell.h), cell.prod, CtlOf(cell)) => ~res.ok)
+  /\ cell.m = "ctl" /\ ~BidReadsStalePrice(cell) => (MustReject(Row(cell.h), cell.prod, CtlOf(cell)) => ~res.ok)
   /\ cell.m = "auc"  => (AucPriceReq(cell.hook, cell.off) => ~res.ok)
   /\ cell.m = "hook" => (HookMustIdle(cell.hook, Ctl(cell.breaker, cell.esm, cell.off)) => ~res.ok)
 (* the named deviation: outside the two known networks the dispatcher has no sender guard at all *)
